@@ -593,7 +593,9 @@ class Sim:
     def _run_instant(self, triggered_all=False):
         """delta cycles until no process can be triggered"""
         first = True
-        for delta in range(64):
+        # a combinational design settles after at most as many delta cycles as its longest signal path, which is bounded by the
+        # number of processes (deep generated hierarchies exceed a fixed small limit)
+        for delta in range(64 + 2 * len(self.procs)):
             todo = []
             for fp in self.procs:
                 if first and triggered_all:
